@@ -4,7 +4,7 @@ from __future__ import annotations
 
 from .. import terms as tm
 from ..model import AnalysisError
-from .common import ob, need, call_name, resolve_ite_free, is_lit, lit, linear_form
+from .common import ob, need, call_name, resolve_ite_free, is_lit, lit, linear_form, count_form
 from .. import symeval
 
 PROP = "C18"
@@ -177,7 +177,7 @@ def rule_twinargs(ctx):
     g = ctx.program.func("multipitch.compute_num_freqs", R)
     sg = ctx.S.get(g.qual)
     t2 = sg.returns[0].term
-    good = t2.op == "call" and call_name(t2) == "np.array" and t2.a[1][0].op == "comp" and t2.a[1][0].a[1].op == "attr" and t2.a[1][0].a[1].a[1] == "size"
+    good = t2.op == "call" and call_name(t2) == "np.array" and t2.a[1][0].op == "comp" and count_form(t2.a[1][0].a[1]) is not None and count_form(t2.a[1][0].a[1])[1].op == "iter"
     yield ob(R, g, "multipitch.compute_num_freqs:sizes", good, "per-frame count is the size of each frame's frequency array")
 
 
@@ -254,7 +254,28 @@ def rule_samewindow(ctx):
             yield o
 
 
+def rule_countform(ctx):
+    """n_ref / n_est are the plain per-frame sizes ([f.size for f in frequencies]): duplicates inside a frame are counted,
+    exactly as the matcher sees them, so TP <= min(n_ref, n_est) per frame."""
+    R = "C18.COUNTFORM"
+    f = ctx.program.func("multipitch.compute_num_freqs", R)
+    s = ctx.S.get(f.qual)
+    need(len(s.returns) == 1, R, "compute_num_freqs: single return expected")
+    t = s.returns[0].term
+    if t.op == "call" and call_name(t) in ("np.array", "np.asarray") and t.a[1]:
+        t = t.a[1][0]
+    good = False
+    why = "per-frame count is %s" % tm.show(t, 4)
+    if t.op == "comp" and len(t.a[2]) == 1 and t.a[2][0].op == "param" and t.a[2][0].a[0] == "frequencies" and not t.a[3]:
+        e = t.a[1]
+        cf = count_form(e)
+        good = cf is not None and cf[1].op == "iter" and cf[1].a[0] is t.a[2][0]
+        why = "number of frequencies per frame = size of the frame itself" if good else "per-frame count %s is not the size of the frame itself (a de-duplicated or filtered count breaks TP <= min(n_ref, n_est))" % tm.show(e, 3)
+    yield ob(R, f, "multipitch.compute_num_freqs:size", good, why, node=s.returns[0].node)
+
+
 RULES = [
+    ("C18.COUNTFORM", 1, rule_countform),
     ("C18.SAMEWINDOW", 8, rule_samewindow),
     ("C18.IDENT", 6, rule_ident),
     ("C18.ACCFORM", 3, rule_accform),
